@@ -6,10 +6,11 @@
           2  the model and the implementation disagree on nets / leaf devices / acceptance (tie broken)
           4  the model's own package is not well-formed or does not have the nets of the design
              (would contradict C06E_export_wf / C01E_end_to_end: a defect of the checker)
-          3  harness inconsistency (invalid design or terminal lists) *)
+          3  harness inconsistency (invalid design or terminal lists, or a design outside the hypotheses of the
+             theorems of Props/C01E.v: frag_ok, xinfo_ok) *)
 Require Import Hdl21.Base.PyInt Hdl21.Spec.PySlice Hdl21.Model.Slice Hdl21.Model.Resolve Hdl21.Base.Design
                Hdl21.Spec.Nets Hdl21.Spec.WfDesign Hdl21.Base.Package Hdl21.Base.PrimTable Hdl21.Spec.PkgWf
-               Hdl21.Corr.C03 Hdl21.Corr.C01 Hdl21.Model.C01EElab.
+               Hdl21.Spec.C01ENets Hdl21.Corr.C03 Hdl21.Corr.C01 Hdl21.Model.C01EElab.
 
 Fixpoint list_eqb {A} (eqb : A -> A -> bool) (a b : list A) : bool :=
   match a, b with
@@ -98,6 +99,7 @@ Definition chk_c01e (c : c01e_case) : Z :=
   match spec_view d (cc_terms cc) with
   | None => 3
   | Some sv =>
+      if negb (frag_ok d && xinfo_ok (ce_xinfo c) d) then 3 else
       match elab_export_model (ce_xinfo c) d with
       | Error _ => match cc_pkg cc with None => 2 | Some _ => 2 end     (* the model rejects no valid design *)
       | Ok pm =>
